@@ -273,6 +273,7 @@ func (p *prepared) inputsUnchanged(c *Call) string {
 	}
 	if p.fm != nil {
 		// (a table the call has added names to is another table for the next call it is handed to)
+		ev.Class("function table of StructForFns compared after the call")
 		have := make([]string, 0, len(p.fm))
 		for n := range p.fm {
 			have = append(have, n)
